@@ -732,6 +732,11 @@ class Escape:
             d = dotted(e.func)
             if d in ("len", "abs"):
                 return True
+            if d == "int.from_bytes":
+                sg = kwarg(e, "signed")
+                if sg is None or is_const(sg, False):
+                    return True
+                return self._hand_read_lfanew(f, e)
             if d == "sum" and e.args and isinstance(e.args[0], (ast.GeneratorExp, ast.ListComp)) and (len(e.args) == 1 or self.nonneg(f, e.args[1], at, depth + 1)):
                 return self.nonneg(f, e.args[0].elt, at, depth + 1)
             if d == "max" and any(self.nonneg(f, a, at, depth + 1) for a in e.args):
@@ -798,7 +803,9 @@ class Escape:
                 if not defs:
                     return True
             if not defs:
-                return False
+                # a module-level integer constant (literals, other constants, len(<cstruct struct>))
+                mi = self._module_int(f, e)
+                return mi is not None and mi >= 0
             for st, v in defs:
                 if isinstance(v, ast.Constant) and v.value is None:
                     continue  # a None placeholder is not a number (TypeError is out of the model)
@@ -1414,6 +1421,97 @@ class Escape:
                 if not ok:
                     return False
         self.facts_used.append(f"validated-offset: {f.fq}: IMAGE_FILE_HEADER re-parsed where find_mz_offset parsed it")
+        return True
+
+    def _module_int(self, f: Func, e: ast.AST, depth: int = 0) -> Optional[int]:
+        """constant integer value of an expression over literals, module-level constants and `len(<cstruct struct>)`"""
+        if depth > 6:
+            return None
+        try:
+            v = const_eval(e)
+            return v if isinstance(v, int) and not isinstance(v, bool) else None
+        except (NotConst, TypeError):
+            pass
+        if isinstance(e, ast.Name) and e.id in f.module.consts and not assignments_to(f.node, e.id) and e.id not in params(f.node):
+            return self._module_int(f, f.module.consts[e.id], depth + 1)
+        if isinstance(e, ast.Call) and dotted(e.func) == "len" and len(e.args) == 1 and dotted(e.args[0]):
+            sy = self.rs.lookup_dotted(f.module.name, dotted(e.args[0]))
+            if sy is not None and sy.kind == "struct":
+                cd = self.ctx.cdefs(sy.module).get(sy.cdef_var)
+                try:
+                    return cd.struct(sy.name).static_size if cd else None
+                except Exception:
+                    return None
+        if isinstance(e, ast.BinOp) and isinstance(e.op, (ast.Add, ast.Sub, ast.Mult)):
+            a, b = self._module_int(f, e.left, depth + 1), self._module_int(f, e.right, depth + 1)
+            if a is None or b is None:
+                return None
+            return a + b if isinstance(e.op, ast.Add) else a - b if isinstance(e.op, ast.Sub) else a * b
+        return None
+
+    def _hand_read_lfanew(self, f: Func, c: ast.Call) -> bool:
+        """`int.from_bytes(fh.read(k), <order>, signed=True)` read where the stream was positioned at o + K, with o the offset
+        find_mz_offset returned (not None), K and k the offset and size of `e_lfanew` in IMAGE_DOS_HEADER per the C
+        definition and <order> its byte order: the very field find_mz_offset validated (> 0) - a field of a struct decoded
+        by hand at its offset."""
+        if not c.args:
+            return False
+        rd = origin(f.node, c.args[0])
+        if not (isinstance(rd, ast.Call) and isinstance(rd.func, ast.Attribute) and rd.func.attr == "read" and dotted(rd.func.value) and rd.args):
+            return False
+        fh = dotted(rd.func.value)
+        fv = FuncView.of(f.node)
+        rst = fv.stmt_of(rd)
+        if rst is None:
+            return False
+        sk = self._positioning_seek(f, rst, fh)
+        if sk is None:
+            return False
+        # the DOS header definition
+        g = self.repo.func("pe.find_mz_offset")
+        cdv = None
+        for c2 in fn_calls(g.node):
+            cal2 = self.rs.resolve_call(g, c2)
+            if cal2.kind == "struct" and cal2.struct[2].endswith("IMAGE_DOS_HEADER"):
+                cdv = self.ctx.cdefs(cal2.struct[0]).get(cal2.struct[1])
+                sname = cal2.struct[2]
+        if cdv is None:
+            return False
+        try:
+            fld = cdv.struct(sname).field("e_lfanew")
+        except Exception:
+            fld = None
+        if fld is None or fld.offset is None or fld.size is None:
+            return False
+        order = c.args[1] if len(c.args) > 1 else kwarg(c, "byteorder")
+        want = "little" if cdv.endian == "<" else "big"
+        if not (isinstance(order, ast.Constant) and order.value == want) or self._module_int(f, rd.args[0]) != fld.size:
+            return False
+        # seek target = o + K
+        names = [n for n in ast.walk(sk.args[0]) if isinstance(n, ast.Name)]
+        os_ = []
+        for n in names:
+            od = assignments_to(f.node, n.id)
+            if len(od) == 1 and isinstance(od[0][1], ast.Call):
+                oc = self.rs.resolve_call(f, od[0][1])
+                if oc.kind == "func" and oc.func is not None and oc.func.fq == "pe.find_mz_offset" and dotted(od[0][1].args[0] if od[0][1].args else None) == fh:
+                    os_.append(n.id)
+        if len(set(os_)) != 1:
+            return False
+        o = os_[0]
+        rest = _remove_name(sk.args[0], o)
+        if rest is None or rest is sk.args[0] or self._module_int(f, rest) != fld.offset:
+            return False
+
+        def notnone(test):
+            for l, op, r in compare_parts(test):
+                if dotted(l) == o and isinstance(r, ast.Constant) and r.value is None:
+                    return True if isinstance(op, ast.IsNot) else False if isinstance(op, ast.Is) else None
+            return None
+
+        if not guarded_by(self.ctx, f, rst, notnone) or not self._find_mz_validates():
+            return False
+        self.facts_used.append(f"validated-offset: {f.fq}: e_lfanew decoded by hand at {o} + {fld.offset} (the field find_mz_offset validated, > 0)")
         return True
 
     def _find_mz_validates(self) -> bool:
